@@ -534,7 +534,7 @@ def check_position_translation(ctx, facts, rid="C09.3"):
             ok = None
             if e[0] == "c":
                 ok = "constant"
-            elif b.kind.lower() == "closure" and re.match(r"^_1\.[A-Za-z_0-9]+$", sh):
+            elif b.kind.lower() == "closure" and re.match(r"^_1\.[A-Za-z_0-9]+(?: as \w+)?(?:\.\w+)*$", sh):
                 ok = "the chain index planned / reached by the batch read (captured local)"
             elif re.match(r"^len\((ref\()*.*\.chain\)*\)$", sh):
                 ok = "chain length (caught up)"
@@ -731,6 +731,15 @@ def check_batch_persist(ctx, facts):
             reach = b.reachable_from([e[1]])
             tg = [s for s in sets if s.bb in reach and b.edge_guards(e, s.bb)]
             via = None
+            if not tg:
+                # arms that only encode the target and then join in front of one setter call: the arm persists if every way on
+                # from it passes the setter (the bypass edges are judged below)
+                cand = [s for s in sets if s.bb in reach]
+                if cand and b.must_pass([e[1]], b.return_blocks(), [s.bb for s in cand],
+                                       removed_edges=[be for be in bypass_edges(b, e[1], [s.bb for s in cand])
+                                                      if (lambda T2, w: T2 is not None and T2.kind == "discr" and (call_site_of(b, {"k": "copy", "place": T2.place}) is not None) and
+                                                          re.search(r"RwLock::(write|read)$", callee_name(call_site_of(b, {"k": "copy", "place": T2.place}).node)))(*classify_edge(b, be))]):
+                    tg = cand
             if not tg:
                 # the arm may hand its value on: an Option built as Some on this arm (and only tested afterwards)
                 for T3 in all_tests(b):
